@@ -26,8 +26,8 @@ import (
 	"time"
 	"unicode/utf8"
 
-	ber "github.com/go-asn1-ber/asn1-ber"
 	"github.com/glauth/ldap"
+	ber "github.com/go-asn1-ber/asn1-ber"
 	"github.com/whawty/auth/sasl"
 	"github.com/whawty/auth/store"
 	"github.com/whawty/auth/zz_verif/ref"
@@ -38,13 +38,13 @@ func init() { stages["c04tls"] = c04tls }
 
 // tlsAgent is a running agent with every kind of listener the binary offers.
 type tlsAgent struct {
-	cmd                                  *exec.Cmd
-	mode                                 string
-	Sasl, HTTP, HTTPS, LDAP, LDAPS       string
-	mu                                   sync.Mutex
-	out                                  bytes.Buffer
-	httpc, httpsc                        *http.Client
-	tlsc                                 *tls.Config
+	cmd                            *exec.Cmd
+	mode                           string
+	Sasl, HTTP, HTTPS, LDAP, LDAPS string
+	mu                             sync.Mutex
+	out                            bytes.Buffer
+	httpc, httpsc                  *http.Client
+	tlsc                           *tls.Config
 }
 
 func (a *tlsAgent) Stop() {
@@ -79,7 +79,7 @@ func c04SelfSigned(dir string) (cert, key string, err error) {
 		return "", "", err
 	}
 	cert, key = filepath.Join(dir, "cert.pem"), filepath.Join(dir, "key.pem")
-	os.WriteFile(cert, pem.EncodeToMemory(&pem.Block{Type: "CERTIFICATE", Bytes: der}), 0600) //nolint:errcheck
+	os.WriteFile(cert, pem.EncodeToMemory(&pem.Block{Type: "CERTIFICATE", Bytes: der}), 0600)  //nolint:errcheck
 	os.WriteFile(key, pem.EncodeToMemory(&pem.Block{Type: "EC PRIVATE KEY", Bytes: kb}), 0600) //nolint:errcheck
 	return cert, key, nil
 }
@@ -274,7 +274,7 @@ func (a *tlsAgent) ldapStartTLSBind(dn, pw string) string {
 	if err != nil {
 		return "error:" + err.Error()
 	}
-	defer raw.Close()                                   //nolint:errcheck
+	defer raw.Close()                                 //nolint:errcheck
 	raw.SetDeadline(time.Now().Add(60 * time.Second)) //nolint:errcheck
 	p := ber.Encode(ber.ClassUniversal, ber.TypeConstructed, ber.TagSequence, nil, "LDAP Request")
 	p.AppendChild(ber.NewInteger(ber.ClassUniversal, ber.TypePrimitive, ber.TagInteger, uint64(1), "MessageID"))
